@@ -99,6 +99,8 @@ def all_binary(n):
 def qubo_min(rp):
     """(min value, one minimiser) of the default-penalty optimisation QUBO over all 2^n vectors."""
     n = rp.get_num_variables()
+    # a feasibility-mode request first: the optimisation-mode QUBO must not depend on earlier requests
+    rp.get_qubo(feasibility=True)
     Q, k = rp.get_qubo()
     Q = Q.toarray() if hasattr(Q, "toarray") else np.asarray(Q)
     X = all_binary(n)
